@@ -228,6 +228,17 @@ theorem step_commit_shape (w : World) (i : Nat) (st : Stmt) :
         right
         exact ⟨((ensureTx w i).sess i).snap.working, ((ensureTx w i).sess i).work, by simp, fun k => by simpa using doCommit_working _ _ _ _ _ _ hd k⟩
       · left; simp
+  | readO => simp only [step]; simpa using hes (ensureTx w i)
+  | writeO op =>
+    simp only [step]
+    split
+    · split
+      · split
+        · rename_i o _
+          simpa using hct { ensureTx w i with other := o } true
+        · left; simp
+      · left; simp
+    · left; simp
   | setAuto b =>
     simp only [step]
     split
